@@ -338,11 +338,21 @@ impl Ast {
         let weak_ptr = self.add_element(element);
 
         // Add an entry to this AST's lookup table for the element.
-        // A module can share its scoped identifier with a definition (and can be re-opened in any number of files).
-        // It must never shadow that definition, no matter which of the two was parsed first.
-        if matches!(self.elements[index], Node::Module(_)) {
-            self.lookup_table.entry(scoped_identifier).or_insert(index);
-        } else {
+        // Elements of different kinds can share a scoped identifier: a module (which can also be re-opened in any
+        // number of files) with a definition, or a member of a definition with a definition inside the module of the
+        // same name (field `B` of `M::A` and struct `B` of module `M::A`). Which of them a lookup finds must not
+        // depend on which was parsed first: definitions take precedence over members, and members over modules.
+        let precedence = |node: &Node| match node {
+            Node::Module(_) => 0,
+            Node::Field(_) | Node::Enumerator(_) | Node::Operation(_) | Node::Parameter(_) => 1,
+            _ => 2,
+        };
+        let new_precedence = precedence(&self.elements[index]);
+        let is_shadowed = self.lookup_table.get(&scoped_identifier).is_some_and(|&existing| {
+            let existing_precedence = precedence(&self.elements[existing]);
+            existing_precedence > new_precedence || (existing_precedence == 0 && new_precedence == 0)
+        });
+        if !is_shadowed {
             self.lookup_table.insert(scoped_identifier, index);
         }
 
